@@ -135,7 +135,7 @@ def random_scenario(rnd):
 def random_history(rnd):
     scn, up = random_scenario(rnd)
     hist = [scn]
-    n = rnd.choice([1, 1, 1, 2, 2, 2, 3])
+    n = rnd.choice([1, 1, 2, 2, 2, 3])
     while len(hist) < n:
         nxt, _ = random_scenario(rnd)
         if rnd.random() < 0.3:
@@ -285,7 +285,7 @@ def run(ctx, out):
     for hist, up, script, _cfg in traps:
         for k in range(2):
             jobs.append({"hist": hist, "up": up, "script": script, "seed": ctx.seed + k, "fault_prob": 0.0})
-    beh = behaviours(ctx, out, 120 if ctx.quick else 1500, 45)
+    beh = behaviours(ctx, out, 120 if ctx.quick else 1500, 110)
     out.note("leg S2C: %d TLC behaviours + %d trap schedules" % (len(beh), len(traps)))
     for i, (hist, up, script) in enumerate(beh):
         jobs.append({"hist": hist, "up": up, "script": script, "seed": ctx.seed + i, "fault_prob": 0.0})
@@ -297,7 +297,7 @@ def run(ctx, out):
     rjobs = []
     for i in range(150 if ctx.quick else 2500):
         hist, up = random_history(rnd)
-        rjobs.append({"hist": hist, "up": up, "script": [], "seed": ctx.seed + 5000 + i, "fault_prob": [0.0, 0.1, 0.3][i % 3], "proc_prob": [0.0, 0.15, 0.3, 0.15][i % 4]})
+        rjobs.append({"hist": hist, "up": up, "script": [], "seed": ctx.seed + 5000 + i, "fault_prob": [0.0, 0.03, 0.12][i % 3] if len(hist) > 1 else [0.0, 0.1, 0.3][i % 3], "proc_prob": [0.0, 0.15, 0.3, 0.15][i % 4]})
     rstats, rindex = run_traces(ctx, out, rjobs, "rnd")
     _merge(total, rstats)
     out.extra["runs"] = len(jobs) + len(rjobs)
